@@ -1,6 +1,9 @@
 package c14
 
-import "errors"
+import (
+	"bytes"
+	"errors"
+)
 
 // readRFC4180 is the harness's own reader for RFC 4180 text with a one-byte
 // delimiter, written from the RFC (section 2) and independent of encoding/csv and of the
@@ -9,6 +12,16 @@ import "errors"
 // in particular CRLF inside a quoted field is NOT turned into LF, unlike csv.Reader) or
 // unquoted (no quote, CR or LF inside). An empty line is a record with one empty field.
 func readRFC4180(data []byte, delim byte) ([][]string, error) {
+	return readRFC4180D(data, []byte{delim})
+}
+
+// readRFC4180D: the same reader for a delimiter that is a byte string (the UTF-8 encoding of a
+// rune of any length): outside quotes the delimiter is recognised wherever its bytes start.
+func readRFC4180D(data []byte, delim []byte) ([][]string, error) {
+	if len(delim) == 0 {
+		return nil, errors.New("empty delimiter")
+	}
+	atDelim := func(i int) bool { return bytes.HasPrefix(data[i:], delim) }
 	var records [][]string
 	i, n := 0, len(data)
 	for i < n {
@@ -34,7 +47,7 @@ func readRFC4180(data []byte, delim byte) ([][]string, error) {
 					i++
 				}
 			} else {
-				for i < n && data[i] != delim && data[i] != '\n' && data[i] != '\r' {
+				for i < n && !atDelim(i) && data[i] != '\n' && data[i] != '\r' {
 					if data[i] == '"' {
 						return nil, errors.New("bare quote in unquoted field")
 					}
@@ -46,8 +59,8 @@ func readRFC4180(data []byte, delim byte) ([][]string, error) {
 			if i >= n {
 				break
 			}
-			if data[i] == delim {
-				i++
+			if atDelim(i) {
+				i += len(delim)
 				continue
 			}
 			if data[i] == '\n' {
